@@ -35,6 +35,17 @@ Without(st, n) == SelectSeq(st, LAMBDA x : x.name # n)
 WellFormed(st) == /\ \A j, k \in 1..Len(st) : j < k => CRank(st[j].name) < CRank(st[k].name)
                   /\ \A k \in 1..Len(st) : IsSortedNoDup(st[k].traits)
 
+(* Configuration = the SEQUENCE of options handed to NewModel:               *)
+(* [kind |-> "children", children |-> <<..>>] (WithInitialChildren, or       *)
+(* resource initial records; may occur several times, "additive"), and       *)
+(* [kind |-> "clock"].  Whatever the order and grouping, the children given  *)
+(* are the initial children.                                                 *)
+RECURSIVE PutAll(_, _)
+PutAll(st, cs) == IF cs = <<>> THEN st ELSE PutAll(Put(st, Head(cs)), Tail(cs))
+RECURSIVE ConfChildren(_)
+ConfChildren(opts) == IF opts = <<>> THEN <<>>
+                      ELSE PutAll(ConfChildren(Tail(opts)), IF Head(opts).kind = "children" THEN Head(opts).children ELSE <<>>)
+
 NoChild == [has |-> FALSE, v |-> [name |-> "", traits |-> <<>>]]
 Some(ch) == [has |-> TRUE, v |-> ch]
 
